@@ -9,7 +9,8 @@ META = {
             'inventories/amounts); one evaluation = one accepted allocation '
             'write judged against the table dump; distinct = (route, '
             '#consumers, #providers, utilisation class before/after in '
-            '{noinv, empty, partial, exact, over}, unit-constraint class)',
+            '{noinv, empty, partial, exact, over}, unit-constraint class)'
+            ' plus a concurrent part: the C05-C07 scenario catalogue (and provider-tree races) run under the transaction-granularity scheduler, the same oracle evaluated on every committed state / committing step of every explored interleaving',
     'floors': {'concurrent_schedules': 100,
                'accepted_multi_consumer_post': 1,
                'accepted_reshaper_with_allocs': 1,
